@@ -32,11 +32,11 @@ var (
 	vRouter    *router
 	vChains    []vChain
 	vMark      int
-	vRoutesAPI []*Route       // returned *Route per registration statement
-	vRegs      []vReg         // flat registrations (oracle side)
-	vHdr       [][]string     // per registration statement: header pairs in force (nil = none)
+	vRoutesAPI []*Route   // returned *Route per registration statement
+	vRegs      []vReg     // flat registrations (oracle side)
+	vHdr       [][]string // per registration statement: header pairs in force (nil = none)
 	vCustomNF  bool
-	vHdrNames  []string       // all constrained header names of the program
+	vHdrNames  []string // all constrained header names of the program
 )
 
 type vReg struct {
@@ -235,6 +235,21 @@ func VH_Router_serve() {
 
 	if vx.ParamInt("maporders") == 1 {
 		vx.MapOrders(true) // Go leaves map iteration order open: explore it
+	}
+	if vx.ParamInt("prior") == 1 {
+		// C07: an earlier request for the same path with other header values (or another
+		// method) must leave no trace in the outcome of this one
+		ph := http.Header{}
+		for _, name := range vHdrNames {
+			if vx.Bool() {
+				ph[name] = []string{vx.String(hv)}
+			}
+		}
+		pm := method
+		if vx.Bool() {
+			pm = "GET"
+		}
+		vRouter.ServeHTTP(&vNullWriter{}, &http.Request{Method: pm, URL: &url.URL{Path: path}, Header: ph})
 	}
 	vChains = nil
 	vRouter.ServeHTTP(w, req)
